@@ -204,6 +204,39 @@ pub(crate) mod verif_kani {
         kani::cover!(N == 0 || local.bucket_counts[N - 1].get() != 0);
     }
 
+    /// Publishing with more than 63 buckets: buckets 0..59 are clean and equal, buckets 60..64 arbitrary under the
+    /// mirror invariant (63 and 64 share dirty bit 63): afterwards the published bag equals the local one.
+    #[kani::proof]
+    #[kani::unwind(530)]
+    fn copy_from_overflow_buckets_n65() {
+        const N: usize = 65;
+        let mut v: Vec<Magnitude> = Vec::with_capacity(N);
+        let mut i = 0;
+        while i < N {
+            v.push((i as Magnitude) * 10);
+            i += 1;
+        }
+        let mags: &'static [Magnitude] = Box::leak(v.into_boxed_slice());
+        let local = ObservationBag::new(mags);
+        let sync = ObservationBagSync::new(mags);
+        let mut i = 60;
+        while i < N {
+            local.bucket_counts[i].set(kani::any());
+            sync.bucket_counts[i].store(kani::any(), SYNC_BAG_ACCESS_ORDERING);
+            i += 1;
+        }
+        let dirty: u64 = kani::any();
+        kani::assume(dirty & ((1u64 << 60) - 1) == 0);
+        local.dirty_buckets.set(dirty);
+        local.count.set(kani::any());
+        local.sum.set(kani::any());
+        kani::assume(mirror_inv::<N>(&local, &sync));
+        sync.copy_from(&local);
+        assert!(fully_equal::<N>(&local, &sync), "C16.publish_makes_global_equal_local (buckets >= 63 share a dirty bit)");
+        assert!(local.dirty_buckets.get() == 0, "C16.publish_clears_dirty");
+        kani::cover!(local.bucket_counts[64].get() != 0 && dirty == 1u64 << 63);
+    }
+
     fn sync_merge_contract<const N: usize>() {
         let mags = any_magnitudes::<N>();
         let a = any_sync::<N>(mags);
@@ -275,7 +308,6 @@ pub(crate) mod verif_kani {
     inst!(sync_insert_contract_n3, 6, sync_insert_contract::<3>());
     inst!(copy_from_contract_n0, 3, copy_from_contract::<0>());
     inst!(copy_from_contract_n3, 30, copy_from_contract::<3>());
-    inst!(copy_from_contract_n65, 530, copy_from_contract::<65>());
     inst!(sync_merge_contract_n3, 30, sync_merge_contract::<3>());
     inst!(snapshot_merge_contract_n3, 30, snapshot_merge_contract::<3>());
 }
